@@ -760,7 +760,7 @@ def run(ctx):
                       predicate='0 < threshold < 1 (needed for value 0 at ns = 0 and for log(1+alpha))')
     exe = common.ocaml_build(ctx, 'c01') if ctx.model_ok else None
     cases = corpus_cases()
-    n_cases = ctx.budget(600, 15000)
+    n_cases = ctx.budget(600, 30000)
     # explicit quotas: every N' bucket incl. large, every composition kind
     for size in ([300, 3000] if not ctx.thorough() else [300, 1000, 3000, 3000]):
         cases.append(gen_case(ctx, rng, size=size, kind='single'))
